@@ -148,6 +148,13 @@ CHECKS = {
              "indices, all 8x8 pairs. (b) For ~90 templates the SQL emitted for cast() is evaluated over ALL tables of 2 datapoints: Integer/Number/Boolean conversions with Integer inputs over the whole int64 range "
              "(value preserved, 0 <-> false, truncation), string renderings (which value is rendered), Date -> Time_Period, Time_Period -> Date, Time -> Date and Time -> Time_Period for every date / period / "
              "interval of the year range (sharded by indicator and interval shape), including the converted value being used inside the script; runtime errors exactly where no conversion exists."),
+    "C29": dict(technique="bounded SMT (z3) equivalence between the SQL regenerated from the real transpiler and a case-sensitive VTL reference over symbolic tables, for contexts with case-variant names; schema-level failures (input independent) reported from a concrete probe of the real run()",
+        engine="sqlsmt", ref="3 C29", category="model_checking",
+        note="Partial: 19 contexts. Where DuckDB's case-insensitive identifier resolution makes the statement or the load fail for every input (listed as known findings) there is nothing for a solver to quantify over: those are reported by running the real engine. "
+             "Trusted: sqlglot + vt/sqlsmt (column resolution is case-insensitive like DuckDB's; self-checked per template), z3.",
+        text="For every context in which a component, identifier, result or dataset name differs from another only in letter case (rename to a variant followed by filter / calc / keep / a binary operator / union, swapping "
+             "case variants, aggr and join-rename aliases, calc adding a variant, inputs that already hold variants, results DS_r / ds_r, inputs DS_4 / ds_4) the emitted SQL over all tables of 2 datapoints equals the "
+             "reference in which names are compared exactly: each variant keeps its own values and appears in the result."),
     "C32": dict(technique="bounded SMT (z3) reachability of every runtime-error site of the SQL regenerated from the real transpiler (error() calls of the macros, DuckDB kernel domain errors, BIGINT overflow) over symbolic tables; each witness is executed by the real run() and the escaping exception classified",
         engine="sqlsmt", ref="3 C32", category="model_checking",
         note="Partial. Trusted: the evaluator's error-event model (self-checked per template against real DuckDB, incl. extreme integers; events over-approximate because DuckDB evaluates projections lazily - every reachable site is confirmed on the real engine), z3. "
